@@ -160,30 +160,51 @@ s_snprintf(char *out, size_t cap, const char *fmt, ...)
 static struct ev_spec g_spec;
 static struct emu_ev g_ev;
 
+/* The harness' own reads and writes of g_out use constant indices: no CBMC checks needed on them
+ * (the checks stay on in the real code and in the snprintf shadow / model). */
+#pragma CPROVER check push
+#pragma CPROVER check disable "pointer"
+#pragma CPROVER check disable "bounds"
+#pragma CPROVER check disable "pointer-overflow"
+#pragma CPROVER check disable "signed-overflow"
+#pragma CPROVER check disable "conversion"
+/* g_out[k .. k+8) untouched, as far as these bytes lie outside the caller's buffer [lo, hi) */
+#define OUTSIDE(k, lo, hi) ((k) < (lo) || (k) >= (hi))
+#define KEPT1(k, lo, hi) (!OUTSIDE(k, lo, hi) || g_out[k] == FILL)
+#define KEPT8(k, lo, hi) (KEPT1(k, lo, hi) && KEPT1((k) + 1, lo, hi) && KEPT1((k) + 2, lo, hi) && KEPT1((k) + 3, lo, hi) && \
+		KEPT1((k) + 4, lo, hi) && KEPT1((k) + 5, lo, hi) && KEPT1((k) + 6, lo, hi) && KEPT1((k) + 7, lo, hi))
+#define NIL1(k, lo, hi) (!OUTSIDE(k, lo, hi) && g_out[k] == '\0')
+#define NIL8(k, lo, hi) (NIL1(k, lo, hi) || NIL1((k) + 1, lo, hi) || NIL1((k) + 2, lo, hi) || NIL1((k) + 3, lo, hi) || \
+		NIL1((k) + 4, lo, hi) || NIL1((k) + 5, lo, hi) || NIL1((k) + 6, lo, hi) || NIL1((k) + 7, lo, hi))
+
 static void
-run_case(int L, int D, uint8_t *base)
+prefill(void)
+{
+	for (int k = 0; k < FRONT + OUTMAX + CANARY; k++)
+		g_out[k] = FILL;
+}
+
+static void
+run_case(int L, int64_t D)
 {
 	int64_t N = IN.nlabel;
 	g_numlen = D;
 	g_outlen = L;
 	g_outoff = FRONT + OUTMAX - L;
-	for (int k = 0; k < FRONT + OUTMAX + CANARY; k++)
-		g_out[k] = FILL;
 	g_nstr = g_nnum = 0;
 
 	int r = ev_spec_print(&g_spec, &g_ev, g_out + g_outoff, L);
 
-	int clean = 1;
-	for (int k = 0; k < FRONT + OUTMAX + CANARY; k++)
-		if ((k < g_outoff || k >= g_outoff + L) && g_out[k] != FILL) clean = 0;
-	V_ASSERT(clean, "C19: no byte outside the caller's buffer out[0..len) is written");
-	if (r == 0) {
-		int nil = 0;
-		for (int k = 0; k < OUTMAX && k < L; k++)
-			if (g_out[g_outoff + k] == '\0') nil = 1;
-		V_ASSERT(nil, "C19: a decoded text (return 0) is nil-terminated inside the caller's buffer");
+	int lo = (int) g_outoff, hi = (int) g_outoff + L;
+	int clean = 1, nil = 0;
+	for (int k = 0; k < FRONT + OUTMAX + CANARY; k += 8) {
+		if (!KEPT8(k, lo, hi)) clean = 0;
+		if (NIL8(k, lo, hi)) nil = 1;
 	}
-	/* reachability witnesses at one buffer length (constant on this path) */
+	V_ASSERT(clean, "C19: no byte outside the caller's buffer out[0..len) is written");
+	if (r == 0)
+		V_ASSERT(nil, "C19: a decoded text (return 0) is nil-terminated inside the caller's buffer");
+	/* reachability witnesses at a few buffer lengths (constant on this path) */
 	int64_t before = SF_PRE + D + SF_MID;           /* characters in front of the label */
 	int64_t whole = before + N + SF_POST + 1;        /* whole text + nil */
 	if (L == OUTMAX) {
@@ -194,8 +215,8 @@ run_case(int L, int D, uint8_t *base)
 	}
 	if (L == SF_PRE && r != 0 && g_nnum == 0 && g_nstr == 0) V_REACH("description-does-not-fit-refused");
 	if (L == 1 && r != 0) V_REACH("one-byte-buffer-refused");
-	free(base);
 }
+#pragma CPROVER check pop
 
 void
 harness(void)
@@ -239,14 +260,33 @@ harness(void)
 
 	emu_ev(&g_ev, (const struct ovni_ev *) base, 0, 0);
 	V_ASSERT(g_ev.mcv[0] == g_spec.mcv[0] && g_ev.mcv[1] == g_spec.mcv[1] && g_ev.mcv[2] == g_spec.mcv[2], "C19: the event carries the listed code");
-	V_ASSERT((int64_t) g_ev.payload_size == EV_STROFF + N + 1 && g_ev.is_jumbo == 1 && (const uint8_t *) g_ev.payload == base + 12,
+	V_ASSERT((int64_t) g_ev.payload_size == EV_STROFF + N + 1 && g_ev.is_jumbo == 1 && g_ev.has_payload == 1 && (const uint8_t *) g_ev.payload == base + 12,
 			"C19: emu_ev payload size and pointer");
+	/* the same values as constants (emu_ev selects them on the symbolic size: symex would carry
+	 * `size > 0 ? payload : NULL` into every read of the label) */
+	g_ev.payload = (const union ovni_ev_payload *) (base + 12);
+	g_ev.is_jumbo = 1;
+	g_ev.has_payload = 1;
+	prefill();
 
-	/* ---- buffer length L and number length D: constant on each path, all pairs */
+	/* ---- buffer length L and number length D: constant on each path, all pairs.  A buffer in
+	 * which not even the literal text in front of the first argument fits needs no split on D
+	 * (no number is formatted; if one were, its length would be the symbolic IN.numlen).  The
+	 * reachability twin only visits the buffer lengths that carry witness points. */
 	for (int L = 1; L <= OUTMAX; L++) {
+#ifdef WITNESS
+		if (L != 1 && L != SF_PRE && L != OUTMAX) continue;
+#endif
+		if (L <= SF_PRE + 1) {
+			if (IN.outlen == L) {
+				run_case(L, IN.numlen);
+				V_PATH_END("case done");
+			}
+			continue;
+		}
 		for (int D = 1; D <= NUMLEN_MAX; D++) {
 			if (IN.outlen == L && IN.numlen == D) {
-				run_case(L, D, base);
+				run_case(L, D);
 				V_PATH_END("case done");
 			}
 		}
